@@ -77,6 +77,14 @@ class Ctx(object):
         os.makedirs(self.build)
         self._distinct = set()
         self.notes = []
+        # replays of earlier runs of this property are stale
+        rd = os.path.join(REPLAY_ROOT, prop)
+        if os.path.isdir(rd):
+            for f in os.listdir(rd):
+                try:
+                    os.remove(os.path.join(rd, f))
+                except OSError:
+                    pass
 
     # ------------------------------------------------------------------ coverage bookkeeping
     def count_eval(self, key=None, nontrivial=True, n=1):
@@ -231,8 +239,28 @@ def import_repo():
     """Import the implementation under test with its worker threads parked."""
     if REPO not in sys.path:
         sys.path.insert(0, REPO)
+    first = 'pyIRDecoder' not in sys.modules
     import pyIRDecoder  # noqa
+    if first:
+        park_workers()
     return pyIRDecoder
+
+
+def park_workers():
+    """Stop the library's two worker threads (release timers / callback delivery).  Their queues then simply
+    accumulate; the checks that are about them (C07, C12, C13) poll and drain them by hand under a virtual clock,
+    every other check discards them.  Without this the polling threads compete with the harness for the GIL."""
+    from pyIRDecoder import thread_worker
+    tw, pw = thread_worker.TimerThreadWorker(), thread_worker.ProcessThreadWorker()
+    tw.stop()
+    pw.stop()
+    return tw, pw
+
+
+def drain_workers():
+    from pyIRDecoder import thread_worker
+    del thread_worker.TimerThreadWorker().queue[:]
+    del thread_worker.ProcessThreadWorker().queue[:]
 
 
 # ---------------------------------------------------------------------- model evaluation helpers
